@@ -3,6 +3,7 @@ package c03
 import (
 	"bytes"
 	"crypto/sha256"
+	"encoding/hex"
 	"encoding/pem"
 	"fmt"
 	"math/big"
@@ -176,6 +177,19 @@ func checkSCT(t *testing.T, c Case) harness.Verdict {
 		}
 	} else {
 		v.Class("list=with-opaque")
+	}
+
+	// negative variant of (5): a well-formed list followed by 1-3 stray bytes inside the OCTET STRING is not
+	// a SignedCertificateTimestampList; whatever is read back, it must not be handed out as if it were clean.
+	if trail, terr := hex.DecodeString(c.Trailing); terr == nil && len(trail) > 0 {
+		bad := append(append([]byte{}, w.List...), trail...)
+		der := w.wrap(w.tbsOf(&c, w.IName, insertExt(w.ExtsE, w.SCTq, pki.SCTList(bad))))
+		if cert, err := x509.ParseCertificate(der); err == nil {
+			v.Failf("sctlist-trailing-accepted-silently", "ParseCertificate reports no error for an SCT list extension with %d trailing byte(s) %x after the TLS list (SCTList has %d elements)", len(trail), trail, len(cert.SCTList.SCTList))
+		}
+		if scts, err := x509util.ParseSCTsFromCertificate(der); err == nil {
+			v.Failf("parsescts-trailing-accepted-silently", "x509util.ParseSCTsFromCertificate returns %d SCTs and no error for an SCT list extension with trailing bytes %x", len(scts), trail)
+		}
 	}
 
 	// ---- oracle (3): the embedded SCT verifies exactly when the log signed that precertificate
